@@ -468,6 +468,7 @@ def run(ctx):
     assumptions = ["touching counts as intersecting (closed boxes)",
                    "construction must finish within a recursion depth of 64 / 10 s per collection"]
     coverage["rule"] += ("; crowds of n frames spanning the centre plus 1..4 corner marks (n around round numbers up to 1000 (2500) and around 1/r, 1/(1-r) for every share r in the index's source), marks first and in the middle of the list")
+    coverage["rule"] += ('; 306 collections on non-dyadic coordinates with a stroke 0..8 ulp from the running mean of the box midpoints')
     return {"part": part, "coverage": coverage, "assumptions": assumptions}
 
 
